@@ -2,8 +2,8 @@
    trash, for every mount point that is a directory, in the order of the mount table:  $topdir/.Trash/$uid  when it exists
    under a sticky $topdir/.Trash that is not a link, then ALWAYS  $topdir/.Trash-$uid  (both can hold entries of the user at
    once; a directory that is not there lists as empty).  The entries found are threaded through in that order. *)
-From TV Require Import Prelude.Str Prelude.PosixPath Prog.Prog Cmd.Put Cmd.Scan Cmd.Restore Proofs.ProgProofs
-  Proofs.Independence Proofs.StaticScan.
+From TV Require Import Prelude.Str Prelude.PosixPath Codec.TrashInfo Logic.Scope Prog.Prog Cmd.Put Cmd.Scan Cmd.Restore Proofs.ProgProofs
+  Proofs.Independence Proofs.StaticScan Proofs.StaticList.
 Open Scope N_scope.
 
 Section StaticRestore.
@@ -66,3 +66,89 @@ Proof.
   unfold fs_mounts. rewrite Hl. apply static_restore_mounts_lemma.
 Qed.
 End StaticRestore.
+
+(* ---- what is found: the entries in scope of the searched directories, in order ---- *)
+Definition entry_of (fs : statics) (volume : str) (it : bool * str) : option trashed_file :=
+  if negb (fst it) then None
+  else match fs (ReadText (snd it)) with
+       | RStr c => match parse_original_location c volume with
+                   | Some loc => Some (mktf loc (parse_deletion_date c) (snd it) (path_of_backup_copy (snd it)))
+                   | None => None
+                   end
+       | _ => None
+       end.
+Definition dir_items (fs : statics) (td : str) : list (bool * str) :=
+  let info_dir := join2 (normpath td) s_info in
+  match fs (Listdir info_dir) with
+  | RList es => map (fun e => (is_trashinfo_name e, join2 info_dir e)) es
+  | _ => []
+  end.
+Definition item_found (fs : statics) (scope volume : str) (it : bool * str) : list trashed_file :=
+  match entry_of fs volume it with
+  | Some tf => if matches_path (tf_location tf) scope then [tf] else []
+  | None => []
+  end.
+Definition dir_found (fs : statics) (scope : str) (d : str * str) : list trashed_file :=
+  flat_map (item_found fs scope (snd d)) (dir_items fs (fst d)).
+
+Section StaticFound.
+Variable fs : statics.
+Hypothesis Hsane : sane fs.
+Hypothesis Hread : readable fs.
+Hypothesis Hls : forall p, (exists l, fs (Listdir p) = RList l) \/ (exists e, fs (Listdir p) = RErr e /\ is_OSError e = true).
+Variable scope : str.
+
+Lemma srun_read_trashed_file v it : srun fs (read_trashed_file v (fst it) (snd it)) = Done (entry_of fs v it).
+Proof.
+  destruct it as [is_ti p]. unfold entry_of. cbn [fst snd].
+  cbv [read_trashed_file warn call_str call_unit call bind catch]. destruct is_ti; cbn [negb srun].
+  - destruct (rd_text fs Hread p) as [[c Hc]|[e [He Hk]]]; rewrite ?Hc, ?He.
+    + destruct (parse_original_location c v); cbn [srun]; [reflexivity|].
+      rewrite (rd_silent fs Hread (Log _ _ _) eq_refl). reflexivity.
+    + destruct Hk as [Hk|Hk].
+      * rewrite Hk. cbn [srun]. rewrite (rd_silent fs Hread (Log _ _ _) eq_refl). reflexivity.
+      * subst e. cbn [is_OSError srun]. rewrite (rd_silent fs Hread (Log _ _ _) eq_refl). reflexivity.
+  - rewrite (rd_silent fs Hread (Log _ _ _) eq_refl). reflexivity.
+Qed.
+
+Lemma srun_all_info_files td : srun fs (all_info_files td) = Done (dir_items fs td).
+Proof.
+  unfold all_info_files, dir_items. rewrite srun_catch, srun_bind. unfold call_list. rewrite srun_bind, srun_call.
+  destruct (Hls (join2 (normpath td) s_info)) as [[l Hl]|[e [He Hk]]]; rewrite ?Hl, ?He; cbn [then_run srun].
+  - reflexivity.
+  - rewrite Hk. reflexivity.
+Qed.
+
+Lemma srun_restore_scan_dir d : forall acc, srun fs (restore_scan_dir scope acc d) = Done (acc ++ dir_found fs scope d).
+Proof.
+  intros acc. unfold restore_scan_dir, dir_found. rewrite srun_bind, srun_all_info_files. cbn [then_run].
+  generalize (dir_items fs (fst d)). intros items. revert acc.
+  induction items as [|it items IH]; intros acc; cbn [fold_prog flat_map srun]; [rewrite app_nil_r; reflexivity|].
+  rewrite srun_bind, srun_bind, srun_read_trashed_file. cbn [then_run srun]. rewrite IH. unfold item_found at 2.
+  destruct (entry_of fs (snd d) it) as [tf|]; [destruct (matches_path (tf_location tf) scope)|];
+    rewrite <- ?app_assoc; reflexivity.
+Qed.
+
+Lemma sread_found : forall dirs acc, sread fs scope dirs acc = Done (acc ++ flat_map (dir_found fs scope) dirs).
+Proof.
+  induction dirs as [|d dirs IH]; intros acc; cbn [sread flat_map]; [rewrite app_nil_r; reflexivity|].
+  rewrite srun_restore_scan_dir. cbn [then_run]. rewrite IH, <- app_assoc. reflexivity.
+Qed.
+
+(* the whole search: what trash-restore has in hand when it prints its list *)
+Theorem static_restore_found_lemma o (home_vol : str -> str) : ro_trash_dir o = None ->
+  (forall p, In p (home_trash_dir_path_from_env (rs_environ o)) -> srun fs (volume_of p) = Done (home_vol p)) ->
+  srun fs (all_files_trashed_from_path o scope)
+  = Done (flat_map (fun p => dir_found fs scope (p, home_vol p)) (home_trash_dir_path_from_env (rs_environ o))
+          ++ flat_map (dir_found fs scope) (restore_dirs_of_mounts fs (rs_uid o) (fs_mounts fs))).
+Proof.
+  intros Htd Hhome. rewrite (static_restore_search_lemma fs Hsane (rs_uid o) scope o Htd eq_refl).
+  assert (Hh : forall homes acc, (forall p, In p homes -> srun fs (volume_of p) = Done (home_vol p)) ->
+             srun fs (fold_prog homes (fun acc p => v <- volume_of p ;; restore_scan_dir scope acc (p, v)) acc)
+             = Done (acc ++ flat_map (fun p => dir_found fs scope (p, home_vol p)) homes)).
+  { induction homes as [|p homes IH]; intros acc Hp; cbn [fold_prog flat_map srun]; [rewrite app_nil_r; reflexivity|].
+    rewrite srun_bind, srun_bind, (Hp p (or_introl eq_refl)). cbn [then_run]. rewrite srun_restore_scan_dir. cbn [then_run].
+    rewrite IH by (intros q Hq; apply Hp; right; exact Hq). rewrite <- app_assoc. reflexivity. }
+  rewrite (Hh _ [] Hhome). cbn [then_run app]. apply sread_found.
+Qed.
+End StaticFound.
